@@ -57,7 +57,12 @@ func TestC01Box(t *testing.T) {
 				if start > m.state {
 					violation = fmt.Sprintf("update tag=%d [%d,%d) delivered while positions (%d,%d] are neither delivered nor covered", u.Tag, start, u.State, m.state, start)
 				}
-				if !m.overlap && start != m.state {
+				// "The locally tracked position moves only to the end of an update
+				// delivered in order": whatever overlaps were offered, an update that
+				// is handed over starts exactly at the tracked position, otherwise
+				// positions below the frontier reach the handler a second time inside
+				// another update
+				if start != m.state {
 					violation = fmt.Sprintf("update tag=%d [%d,%d) delivered out of order: frontier is %d", u.Tag, start, u.State, m.state)
 				}
 				if u.State < m.state {
